@@ -313,6 +313,17 @@ def run_case(case, ctx):
         for cont in ('scalar', '1d'):
             car = mags[0] if cont == 'scalar' else np.array(mags[:4])
             _store_all_routes(Fxp, car, () if cont == 'scalar' else (4,), s, w, nf, r, 'saturate', routes=('constructor', 'call', 'setitem'))
+        # extended precision carriers (where longdouble is wider than a double): values with up to 63 significant bits
+        L = np.longdouble
+        if np.finfo(L).nmant > 52:
+            lo_, hi_ = R.code_range(s, w)
+            k = rng.randint(lo_, hi_)
+            base = L(k) / L(2) ** nf
+            eps = L(2) ** (-nf - rng.choice([8, 9, 10]))
+            for v in (base + eps, base - eps, base + L(0.5) / L(2) ** nf + eps, base + L(0.5) / L(2) ** nf - eps):
+                _store_all_routes(Fxp, v, (), s, w, nf, r, 'saturate', routes=('constructor', 'call', 'setitem'))
+            _store_all_routes(Fxp, np.array([base + eps, base - eps], dtype=L), (2,), s, w, nf, r, 'saturate', routes=('constructor', 'set_val'))
+            _store_all_routes(Fxp, np.array([L(mags[0]), base + eps, base - eps, L(0.25) / L(2) ** nf + base], dtype=L), (4,), s, w, nf, r, 'saturate', routes=('constructor', 'set_val'))
         small = [float(v) for v in G.hostile_scaled_values(rng, s, w, nf, n=6) if G.can_carry(v, 'pyfloat')][:3] or [0.0]
         mixed = np.array([mags[0]] + small + [mags[1]])
         _store_all_routes(Fxp, mixed, (len(mixed),), s, w, nf, r, 'saturate', routes=('constructor', 'set_val'))
@@ -326,6 +337,14 @@ def run_case(case, ctx):
         cs = [complex(float(vals[2 * j]), float(vals[2 * j + 1])) for j in range(4)]
         for car, shape in ((cs[0], ()), (np.array(cs), (4,)), (np.array(cs, dtype=np.complex128).reshape(2, 2), (2, 2)), (list(cs), (4,)), (np.complex128(cs[1]), ())):
             _store_all_routes(Fxp, car, shape, s, w, nf, r, o, routes=('constructor', 'call', 'set_val'))
+        # complex64 (float32 components): in-range first element, later ones overflow in both directions; words of 25+ bits
+        if o == 'saturate' and 0 <= nf and w >= 20:
+            lo_, hi_ = R.code_range(s, w)
+            big = float(np.float32(float(F(hi_) / F(2) ** nf) * 1.5 + 3))
+            small = float(np.float32(0.75))
+            if abs(big) < 2 ** 53 and abs(big) * 2 ** nf < 2 ** 62:
+                c64b = np.array([complex(small, -small), complex(big, -big), complex(-big, small)], dtype=np.complex64)
+                _store_all_routes(Fxp, c64b, (3,), s, w, nf, r, o, routes=('constructor', 'set_val', 'call'))
         if all(G.can_carry(v, 'np:float32') for v in vals[:4]):
             c64 = np.array([complex(float(vals[0]), float(vals[1])), complex(float(vals[2]), float(vals[3]))], dtype=np.complex64)
             _store_all_routes(Fxp, c64, (2,), s, w, nf, r, o, routes=('constructor', 'set_val'))
